@@ -72,6 +72,21 @@ class Ob(object):
         obj.N_ = sp['N']; obj.M_ = sp['M']; obj.R_ = sp['R']; obj.d_ = d
         return obj
 
+    def case(self, cond):
+        """for _ in ob.case(cond): ...   runs the body under the extra assumption cond (skipped when infeasible)"""
+        pc = self.ex.pc
+        if cond is False or (cond is not True and not pc.feasible(cond)):
+            return
+        pc.solver.push()
+        n = len(pc.facts)
+        if cond is not True:
+            pc.add(cond)
+        try:
+            yield True
+        finally:
+            pc.solver.pop()
+            del pc.facts[n:]
+
     # ---- obligations
     def _add(self, name, kind, status, detail=None):
         self.results.append({'name': name, 'kind': kind, 'status': status, 'detail': detail or {}})
